@@ -35,6 +35,10 @@ def SINK(*args, **kwargs):
     return None
 
 
+def IDENT(value):
+    return value
+
+
 NS = types.SimpleNamespace(sub=types.SimpleNamespace())
 
 
